@@ -1,5 +1,6 @@
 import GGV.Lemmas.Grammar
 import GGV.Lemmas.GrammarList
+import GGV.Lemmas.Attach
 /-!
 # C15 — The annotation grammar is exactly the documented one
 
@@ -358,6 +359,69 @@ example : parseConstructor (ascii "// @constructor New, Make ,Build, - see docs"
 /-- … whereas here the list continues (`parseSep` succeeds on `, see docs`): the regex takes `see` as a fourth name -/
 example : parseConstructor (ascii "// @constructor New, Make ,Build, see docs")
     = some [ascii "New", ascii "Make", ascii "Build", ascii "see"] := by
+  decide
+
+end GGV.Props.C15
+
+/-! ## attachment: which doc comment speaks for which type spec
+
+`type ( … )` groups: a spec with a doc comment of its own is described by that comment alone; only a spec without one
+falls back to the group's comment; and what one spec contributes does not depend on its siblings in the group. -/
+namespace GGV.Props.C15
+open GGV.Model GGV.Model.Prog
+
+/-- a spec's own doc comment wins: the group's comment is not consulted -/
+theorem spec_doc_wins (genDoc genDoc' : Doc) (ts : TypeSpecInfo) (l : List Bytes) (h : ts.doc = some l) :
+    specDoc genDoc ts = some l ∧ specDoc genDoc' ts = some l := by
+  unfold specDoc; simp [h]
+
+/-- a spec without a doc comment is described by the group's comment -/
+theorem group_doc_fallback (genDoc : Doc) (ts : TypeSpecInfo) (h : ts.doc = none) : specDoc genDoc ts = genDoc := by
+  unfold specDoc; simp [h]
+
+/-- the contribution of one spec under a group comment -/
+def annOfSpec (pkgPath : Name) (genDoc : Doc) (ts : TypeSpecInfo) : Annotations :=
+  match specDoc genDoc ts with
+  | none => {}
+  | some lines => concatAnn (lines.map (annOfTypeLine pkgPath ts))
+
+/-- **specs are independent**: the annotations of a `type` declaration are the concatenation of what each spec
+    contributes on its own — nothing carries over from one spec to the next -/
+theorem type_decl_by_spec (pkgPath : Name) (d : Decl) (genDoc : Doc) (specs : List TypeSpecInfo)
+    (h : d.info = .gen (ascii "type") genDoc specs) :
+    annOfDeclTypes pkgPath d = concatAnn (specs.map (annOfSpec pkgPath genDoc)) := by
+  unfold annOfDeclTypes
+  rw [h]
+  simp only [bne_self_eq_false, Bool.false_eq_true, if_false]
+  rfl
+
+/-- a documented spec contributes the same whatever the group's comment says and whatever its siblings are -/
+theorem documented_spec_local (pkgPath : Name) (genDoc genDoc' : Doc) (ts : TypeSpecInfo) (l : List Bytes)
+    (h : ts.doc = some l) : annOfSpec pkgPath genDoc ts = annOfSpec pkgPath genDoc' ts := by
+  unfold annOfSpec
+  rw [(spec_doc_wins genDoc genDoc' ts l h).1, (spec_doc_wins genDoc genDoc' ts l h).2]
+
+/-- a group whose comment carries no keyword line and a spec without a comment: nothing is contributed -/
+theorem undocumented_spec_inert (pkgPath : Name) (ts : TypeSpecInfo) (h : ts.doc = none) :
+    annOfSpec pkgPath none ts = {} := by
+  unfold annOfSpec
+  rw [group_doc_fallback none ts h]
+
+/-- splitting a group in two declarations with the same group comment changes nothing (append of spec lists) -/
+theorem type_decl_split (pkgPath : Name) (genDoc : Doc) (s1 s2 : List TypeSpecInfo) :
+    concatAnn ((s1 ++ s2).map (annOfSpec pkgPath genDoc)) =
+      concatAnn (s1.map (annOfSpec pkgPath genDoc)) ++ concatAnn (s2.map (annOfSpec pkgPath genDoc)) := by
+  induction s1 with
+  | nil => simp only [List.nil_append, List.map_nil, concatAnn_nil]; exact (ann_empty_append _).symm
+  | cons a r ih =>
+    simp only [List.cons_append, List.map_cons]
+    rw [concatAnn_cons, concatAnn_cons, ih, ann_append_assoc]
+
+/-- non-vacuity: a group `// @immutable type ( A struct{}; // plain\n B struct{} )`: A falls back to the group comment, B does not -/
+def exA : TypeSpecInfo := { name := ascii "A", pos := 1, doc := none, isStruct := true, fields := [] }
+def exB : TypeSpecInfo := { name := ascii "B", pos := 2, doc := some [ascii "// plain"], isStruct := true, fields := [] }
+def exG : Doc := some [ascii "// @immutable"]
+example : (annOfSpec (ascii "p") exG exA).immutable = [ascii "A"] ∧ (annOfSpec (ascii "p") exG exB).immutable = [] := by
   decide
 
 end GGV.Props.C15
